@@ -205,6 +205,18 @@ func (w *world) kill(addr string) {
 	}
 }
 
+// dropConns cuts every connection to addr while the server keeps accepting new ones
+func (w *world) dropConns(addr string) {
+	w.mu.Lock()
+	s := w.servers[addr]
+	ends := s.ends
+	s.ends = nil
+	w.mu.Unlock()
+	for _, e := range ends {
+		e.Close()
+	}
+}
+
 func (w *world) restart(addr string) {
 	w.mu.Lock()
 	s := w.servers[addr]
@@ -779,7 +791,7 @@ func poolStress(e *Env) {
 	for k := 0; k < rounds; k++ {
 		limits := [][2]int{{1, 1}, {2, 1}, {3, 2}}[k%3]
 		r := newPoolRun(e, "C13", limits[0], limits[1], 1000, 1000, 1)
-		r.w.slowClose = 800 * time.Microsecond
+		r.w.slowClose = 1500 * time.Microsecond
 		a := r.addrs[0]
 		var wg sync.WaitGroup
 		stop := make(chan struct{})
@@ -802,11 +814,15 @@ func poolStress(e *Env) {
 				}
 			}(g)
 		}
-		for j := 0; j < 12; j++ {
-			time.Sleep(3 * time.Millisecond)
-			r.w.kill(a)
+		for j := 0; j < 16; j++ {
 			time.Sleep(2 * time.Millisecond)
-			r.w.restart(a)
+			if j%4 == 3 {
+				r.w.kill(a)
+				time.Sleep(time.Millisecond)
+				r.w.restart(a)
+			} else {
+				r.w.dropConns(a) // the server stays reachable: a replacement can be dialed at once
+			}
 		}
 		close(stop)
 		wg.Wait()
